@@ -184,7 +184,7 @@ var utf8Rels = []utf8Rel{
 		return ""
 	}},
 	{id: "tojson|fromjson", q: "tojson | fromjson", r: "explode | implode"},
-	{id: "byte round trips", q: `[(@base64 | @base64d), (@uri | @urid), (split("") | join("")), (split(",") | join(",")), tostring, @text, ([.] | add), (. + ""), ([.] | join("")), ([., .] | min), (. / "\u0001" | .[0])]`,
+	{id: "byte round trips", q: `[(@base64 | @base64d), (@uri | @urid), (split("") | join("")), (split(",") | join(",")), tostring, @text, ([.] | add), (. + ""), ([.] | join("")), ([., .] | min), (. / "\u0001" | join("\u0001"))]`,
 		check: func(s string, _ any, out []any) string {
 			ss, msg := strOut(out, 11)
 			if msg != "" {
@@ -201,7 +201,7 @@ var utf8Rels = []utf8Rel{
 		arg: func(s string) []any { return []any{s} }},
 	{id: "indices vs explode", q: "[indices($a), index($a), rindex($a)]", r: "explode | [indices($a | explode), index($a | explode), rindex($a | explode)]",
 		arg: func(s string) []any { return []any{"\xff", "a", "\x80", ",", "é", "\xc3"} }},
-	{id: "order", q: "[. == ., ([., .] | unique | length), (. < .), ([.] | sort | .[0] == .), ([.] | index($a)), ({(.): 1} | has($a))]", r: "[true, 1, false, true, 0, true]",
+	{id: "order", q: "[. == ., ([., .] | unique | length), (. < .), (. as $s | [$s] | sort | .[0] == $s), ([.] | index($a)), ({(.): 1} | has($a))]", r: "[true, 1, false, true, 0, true]",
 		arg: func(s string) []any { return []any{s} }},
 }
 
@@ -328,7 +328,12 @@ func runUTF8(t *testing.T) {
 						continue
 					}
 					rec.Eval()
-					out, msg := totalOutcome(s, in, args)
+					var out, msg string
+					if len(in) > 1000 {
+						out, msg = totalOutcome(s, in, args)
+					} else {
+						withBudget(30000, 120, func() { out, msg = totalOutcome(s, in, args) })
+					}
 					if msg != "" {
 						if rec.Violations() < 25 {
 							rec.Direct("utf8-total", callCase{Spec: s.ID, In: univ.V{X: in}, Args: args, Big: true}, "%s", clip(msg))
@@ -399,6 +404,9 @@ func runUTF8(t *testing.T) {
 				}
 			}
 			s = sb.String()
+		}
+		if s == "" {
+			s = "\xff"
 		}
 		args := utf8Args(rel, s)
 		c := utf8Case{Rel: rel.id, In: univ.V{X: s}, Arg: univ.V{X: args[rapid.IntRange(0, len(args)-1).Draw(t, "arg")]}}
